@@ -24,8 +24,9 @@ func init() {
 		ID:       "C12",
 		Generate: generate,
 		Replay: func(raw json.RawMessage, r *mon.R) {
-			var s string
-			json.Unmarshal(raw, &s)
+			var ms mon.Str
+			json.Unmarshal(raw, &ms)
+			s := string(ms)
 			mon.StepBudget = stepBudget
 			Check(s, r)
 		},
@@ -139,7 +140,7 @@ func generate(w *mon.W) {
 
 // Check runs every entry point on one input.
 func Check(s string, r *mon.R) {
-	r.Case = s
+	r.Case = mon.Str(s)
 	kk := KnownKey(s)
 	fail := func(what string, o mon.Out) {
 		r.Violation(kk, "%s on a %d-byte input: %s\n%s", what, len(s), o.String(), o.Stack)
@@ -188,6 +189,15 @@ func Check(s string, r *mon.R) {
 	} else if o2 := mon.Guarded(func() { _ = cerr.Error() }); o2.Anomalous() {
 		fail("Error() of the compile error", o2)
 		return
+	}
+	sqlz, zerr, o := mon.CompileZero(s)
+	if o.Anomalous() {
+		fail("Compile with zero-value options", o)
+		return
+	}
+	if (zerr == nil) != (cerr == nil) || sqlz != sql {
+		// judged by C14; recorded here only
+		r.Count("zero_options_differ_from_nil", 1)
 	}
 	pm := gen.ParamMaps[1+int(hash(s)%uint32(len(gen.ParamMaps)-1))]
 	_, _, o = mon.Compile(s, pm)
